@@ -527,6 +527,13 @@ fn opposite(k: &str) -> Option<&'static str> {
     })
 }
 
+/// the policy written as the array `[version, id, statement]` (the fields of `Policy` in declaration
+/// order, absent members as null): the form a derived `deserialize_struct` reader also takes
+fn array_form(doc: &[(String, J)]) -> J {
+    let get = |k: &str| doc.iter().find(|(kk, _)| kk == k).map_or(J::Null, |e| e.1.clone());
+    J::Arr(vec![get("Version"), get("Id"), get("Statement")])
+}
+
 /// one mutation; returns the (possibly replaced) top-level value
 fn mutate(rng: &mut Rng, mut doc: Vec<(String, J)>) -> J {
     match rng.below(22) {
@@ -644,8 +651,7 @@ fn mutate(rng: &mut Rng, mut doc: Vec<(String, J)>) -> J {
         }
         // array form of the policy
         18 => {
-            let get = |k: &str| doc.iter().find(|(kk, _)| kk == k).map_or(J::Null, |e| e.1.clone());
-            let mut items = vec![get("Version"), get("Id"), get("Statement")];
+            let J::Arr(mut items) = array_form(&doc) else { unreachable!() };
             match rng.below(5) {
                 0 => {
                     items.pop();
@@ -774,7 +780,7 @@ fn generate(rng: &mut Rng, n: u64, tier: &str, emit: &mut dyn FnMut(Vec<String>)
             }
         }
     }
-    // (2) random values with 0..4 statements, (3) documents: plain and mutated
+    // (2) random values with 0..4 statements, (3) documents: plain (object form, array form) and mutated
     for i in 0..n {
         match i % 5 {
             0 | 1 => {
@@ -782,8 +788,10 @@ fn generate(rng: &mut Rng, n: u64, tier: &str, emit: &mut dyn FnMut(Vec<String>)
                 emit(vec!["val".to_owned(), hex(p.to_string().as_bytes())]);
             }
             2 => {
-                let d = J::Obj(doc_policy(rng));
-                emit_doc(rng, &d, emit);
+                // a well-formed policy; one in eight written in array form (nothing else wrong with it)
+                let d = doc_policy(rng);
+                let j = if rng.chance(1, 8) { array_form(&d) } else { J::Obj(d) };
+                emit_doc(rng, &j, emit);
             }
             _ => {
                 let d = doc_policy(rng);
